@@ -328,6 +328,18 @@ Definition configure (now jr jn : N) (s : st) : st * list output :=
   let '(s, o2) := sendStagedPackets now jr jn s in
   (s, o1 ++ o2).
 
+(* handlePersistentKeepaliveIntervalLine + handlePostConfig for an EXISTING peer:
+   old := interval.Swap(n); pkaOn = old == 0 && n != 0; when the device is up:
+   peer.Start() (no effect on a running peer); if pkaOn { SendKeepalive() };
+   SendStagedPackets().  The persistent-keepalive timer itself is not touched. *)
+Definition setPka (now jr jn n : N) (s : st) : st * list output :=
+  let on := (pka s =? 0) && (0 <? n) in
+  let s := set_pka s n in
+  if negb (active s) then (s, []) else
+  let '(s, o1) := if on then sendKeepalive now jr jn s else (s, []) in
+  let '(s, o2) := sendStagedPackets now jr jn s in
+  (s, o1 ++ o2).
+
 (* RoutineReadFromTUN: one read batch routed to this peer *)
 Definition tunRead (now jr jn : N) (ids : list N) (s : st) : st * list output :=
   if active s then
@@ -448,6 +460,7 @@ Inductive input :=
 | IShiftKeys (d : N)          (* harness hook VerifShiftKeypairAges: every keypair becomes d older *)
 | ISetAttempts (n : N)        (* harness hook VerifSetHandshakeAttempts: handshakeAttempts := n *)
 | IShiftHs (d : N)            (* harness hook VerifShiftHandshakeTimes: lastSentHandshake becomes d older *)
+| ISetPka (n : N)             (* UAPI set changing persistent_keepalive_interval of the existing peer *)
 | IConfigure.                 (* UAPI set creating the peer (with its persistent keepalive) on a device that is up *)
 
 (* An event: when it runs, what it is, and the two jitter draws (milliseconds). *)
@@ -466,6 +479,7 @@ Fixpoint step_in (now jr jn : N) (i : input) (s : st) : st * list output :=
   | IShiftKeys d => (shiftKeys d s, [])
   | ISetAttempts n => (set_attempts s n, [])
   | IShiftHs d => (set_last_sent_hs s (last_sent_hs s - d), [])
+  | ISetPka n => setPka now jr jn n s
   | IConfigure => configure now jr jn s
   end.
 
